@@ -132,4 +132,21 @@ def reduce {α} (f : α → α → α) : List α → M α
   | [] => throw (.fault "TypeError")
   | x :: xs => pure (xs.foldl f x)
 
+/-! ### primitives used by the method translations (translator/pymethod.py, Gen/PyComplexS.lean) -/
+
+/-- a method of an object whose translated part is `σ`: the object is the state; an exception keeps the assignments made before it -/
+abbrev MS (σ : Type) := ExceptT Err (StateM σ)
+
+/-- run a method on an object: the result (or the exception) and the object afterwards -/
+def MS.exec {σ α} (m : MS σ α) (s : σ) : Except Err α × σ := (ExceptT.run m).run s
+
+/-- truth value of a value that is `None` or a list: `None` and `[]` are false -/
+def truthyOL {α} (o : Option (List α)) : Bool :=
+  match o with
+  | some l => !l.isEmpty
+  | none => false
+
+/-- `a % b` on ints of either sign (the result has the sign of `b`): ZeroDivisionError for `b = 0` -/
+def imod (a b : Int) : M Int := if b = 0 then throw (.fault "ZeroDivisionError") else pure (Int.fmod a b)
+
 end Dsd.Py
